@@ -186,13 +186,18 @@ def run_one(rng, counters):
                 lines = []
                 if trace["gtchange_calls"]:
                     viol.append({"mech": "gtchange-missing", "msg": "changed-genotype list requested but not written"})
+            # the list is compared with the VCF: the position column has to be the POS of the record (1-based, like the read list
+            # and the recombination list); the writer's arguments carry 0-based positions
             got = sorted(tuple(l.split("\t")[:3]) for l in lines)
-            want = sorted((s, c, str(pos)) for s, c, pos, o, n in exp)
+            want = sorted((s, c, str(pos + 1)) for s, c, pos, o, n in exp)
+            if got != want and got == sorted((s, c, str(pos)) for s, c, pos, o, n in exp):
+                viol.append({"mech": "gtchange-position-not-vcf-pos", "msg": "changed-genotype list names positions that are POS-1 of the changed records (0-based), e.g. %r; the VCF record is at %r" % (got[:2], want[:2])})
+                got = want
             if got != want:
                 lost = [w for w in want if w not in got]
                 chroms_lost = sorted({w[1] for w in lost})
                 last = trace["gtchange_calls"][-1] if trace["gtchange_calls"] else []
-                only_last = sorted(tuple(l.split("\t")[:3]) for l in lines) == sorted((s, c, str(pos)) for s, c, pos, o, n in last)
+                only_last = got == sorted((s, c, str(pos + 1)) for s, c, pos, o, n in last)
                 viol.append(
                     {
                         "mech": "gtchange-list-incomplete" + (":only-last-call-survives" if only_last else ""),
@@ -208,7 +213,7 @@ def run_one(rng, counters):
                 for s in a["header"]["samples"]:
                     ga, gb = x["samples"][s]["__GT"][0], y["samples"][s]["__GT"][0]
                     if vcfdiff.multiset(ga) != vcfdiff.multiset(gb):
-                        diffs.add((s, x["chrom"], str(x["pos"] - 1)))
+                        diffs.add((s, x["chrom"], str(x["pos"])))
             listed = set(want)
             if listed != diffs:
                 viol.append({"mech": "gtchange-vs-vcf", "msg": "changes reported by the writer %r != genotype differences between input and output VCF %r" % (sorted(listed - diffs)[:3], sorted(diffs - listed)[:3])})
